@@ -122,6 +122,22 @@ class Gen:
         return t
 
     # ---- legacy four-byte option modules -------------------------------------------------
+    def attr_noise(self, attr):
+        """Other attributes around a field's `#[ssz(..)]`: doc comments, lints, `cfg_attr`.  They carry no SSZ
+        meaning; a macro that finds its own attribute by position, or stops at the first foreign one, shows
+        on these definitions only.  Deterministic: every fifth field is left alone."""
+        self.noise_n = getattr(self, "noise_n", 0) + 1
+        k = self.noise_n % 5
+        if k == 0:
+            return attr
+        if k == 1:
+            return "    /// a documented field\n" + attr
+        if k == 2:
+            return "    #[allow(dead_code)]\n" + attr
+        if k == 3:
+            return attr + "    #[doc = \"after\"]\n"
+        return "    /// before\n    #[allow(dead_code)]\n" + attr + "    #[cfg_attr(all(), allow(dead_code))]\n"
+
     def legacy_mod(self, inner):
         if inner.rust in self.legacy:
             return self.legacy[inner.rust]
@@ -197,6 +213,7 @@ impl Model for {name} {{
             if "withdecoy" in flags:
                 attrs.append('with = "%s"' % DECOYS[t.rust][0])
             attr = ("    #[ssz(%s)]\n" % ", ".join(attrs)) if attrs else ""
+            attr = self.attr_noise(attr)
             decl.append("%s    pub %s: %s," % (attr, fname, rust_ty))
             if "skip_ser" not in flags:
                 ser_fields.append((fname, ty_expr, val_expr))
@@ -296,7 +313,7 @@ impl Model for {name} {{
                 "Default::default()" if sk else "<%s as Model>::gen(r, size)" % ty for ty, sk in fields))
         else:
             decl = "pub struct %s {\n%s\n}" % (name, "\n".join(
-                ("    #[ssz(%s)]\n    pub f%d: %s," % (skip_attr, i, ty)) if sk
+                (self.attr_noise("    #[ssz(%s)]\n" % skip_attr) + "    pub f%d: %s," % (i, ty)) if sk
                 else ("    pub f%d: %s," % (i, ty)) for i, (ty, sk) in enumerate(fields)))
             live = "self.f%d" % before
             ctor = "%s { %s }" % (name, " ".join(
